@@ -88,7 +88,7 @@ SeqProtoFails(seq, q) ==
   \cup (IF /\ Len(q.walk) = (IF n \div q.stride <= 4096 THEN n \div q.stride ELSE 4096)
            /\ \A j \in 1..Len(q.walk) : q.walk[j][1] = j * q.stride - 1 /\ <<q.walk[j][2], q.walk[j][3]>> = At(q.walk[j][1])
         THEN {} ELSE {"nth_differs_from_next"})
-  \cup (IF q.after = <<1, 1>> THEN {} ELSE {"yields_again_after_the_end"})
+  \* (q.after - two more calls of next() after the end - is recorded but not judged: Iterator does not promise fusedness)
   \cup (IF \A j \in 1..Len(q.mixed) :
             LET mx == q.mixed[j]  k == mx[1]  rest == IF k < n THEN n - k ELSE 0
                 lastP == IF rest = 0 THEN <<>> ELSE seq[n]
